@@ -9,6 +9,7 @@ import (
 	"io"
 	"math/rand"
 	"os"
+	"runtime"
 	"sort"
 	"strconv"
 	"strings"
@@ -65,7 +66,121 @@ func c11Plan(seed int64, tier string) []core.Case {
 			cs = append(cs, core.Case{Kind: e, Seed: core.SubSeed(seed, "c11", e, i), P: map[string]int64{"n": int64(batch)}})
 		}
 	}
+	// bam-aux: the enumerated family of aux field structures (every type
+	// byte, every array subtype byte, counts around the size arithmetic's
+	// edges, payloads exact/short/long), one BAM record each. thorough runs
+	// all parts, quick a seeded third.
+	parts := (len(c11AuxFamily()) + c11AuxPart - 1) / c11AuxPart
+	rng := core.Case{Seed: core.SubSeed(seed, "c11", "bam-aux")}.Rng()
+	for p := 0; p < parts; p++ {
+		if tier != "thorough" && (p+rng.Intn(3))%3 != 0 {
+			continue
+		}
+		cs = append(cs, core.Case{Kind: "bam-aux", Seed: core.SubSeed(seed, "c11", "bam-aux", p), P: map[string]int64{"part": int64(p), "n": c11AuxPart}})
+	}
+	tparts := (len(c11AuxTextFamily()) + c11AuxPart - 1) / c11AuxPart
+	for p := 0; p < tparts; p++ {
+		if tier != "thorough" && (p+rng.Intn(3))%3 != 0 {
+			continue
+		}
+		cs = append(cs, core.Case{Kind: "aux-text", Seed: core.SubSeed(seed, "c11", "aux-text", p), P: map[string]int64{"part": int64(p), "n": c11AuxPart}})
+	}
 	return cs
+}
+
+const c11AuxPart = 400
+
+var c11EmptyHdr, _ = sam.NewHeader(nil, nil)
+
+var c11AuxTextFam [][]byte
+
+// c11AuxTextFamily enumerates SAM aux field texts by structure: every type
+// byte and every array subtype byte against a set of values.
+func c11AuxTextFamily() [][]byte {
+	if c11AuxTextFam != nil {
+		return c11AuxTextFam
+	}
+	var out [][]byte
+	vals := []string{"", "0", "1", "-1", "255", "256", "65536", "4294967296", "-2147483649", "1.5", "1e400", "x", "ab cd", "1A2B", "1A2", "zz", "\t"}
+	for t := 0; t < 256; t++ {
+		for _, v := range vals {
+			out = append(out, []byte("XX:"+string([]byte{byte(t)})+":"+v))
+		}
+	}
+	lists := []string{"", ",", ",1", ",1,2", ",-1", ",1.5", ",x", ",300", ",70000", ",99999999999", ",1,", ",,1"}
+	for s := 0; s < 256; s++ {
+		for _, l := range lists {
+			out = append(out, []byte("XX:B:"+string([]byte{byte(s)})+l))
+		}
+	}
+	c11AuxTextFam = out
+	return out
+}
+
+var c11AuxFam [][]byte
+
+// c11AuxFamily enumerates aux field byte strings by structure.
+func c11AuxFamily() [][]byte {
+	if c11AuxFam != nil {
+		return c11AuxFam
+	}
+	var out [][]byte
+	add := func(b []byte) {
+		out = append(out, append([]byte(nil), b...))
+		// and followed by a well-formed field, so that parsing goes on
+		out = append(out, append(append([]byte(nil), b...), 'Y', 'Y', 'c', 1))
+	}
+	le32 := func(v uint32) []byte { return []byte{byte(v), byte(v >> 8), byte(v >> 16), byte(v >> 24)} }
+	payloads := [][]byte{nil, {1}, {1, 2}, {1, 2, 3, 4}, {1, 2, 3, 4, 5, 6, 7, 8}, []byte("ab\x00"), []byte("ab"), []byte("1A\x00"), []byte("1\x00"), []byte("zz\x00"), {0}}
+	for t := 0; t < 256; t++ {
+		for _, p := range payloads {
+			add(append([]byte{'X', 'X', byte(t)}, p...))
+		}
+	}
+	size := map[byte]int{'c': 1, 'C': 1, 's': 2, 'S': 2, 'i': 4, 'I': 4, 'f': 4}
+	counts := []uint32{0, 1, 2, 3, 4, 7, 8, 9, 16, 0x7fffffff, 0x80000000, 0xffffffff, 0x40000000, 0x20000001}
+	for s := 0; s < 256; s++ {
+		for _, n := range counts {
+			hd := append([]byte{'X', 'X', 'B', byte(s)}, le32(n)...)
+			sz := size[byte(s)]
+			if sz == 0 {
+				sz = 1
+			}
+			exact := 0
+			if n <= 16 {
+				exact = int(n) * sz
+			}
+			for _, l := range []int{exact, exact - 1, 0, exact + 3} {
+				if l < 0 {
+					continue
+				}
+				add(append(append([]byte(nil), hd...), make([]byte, l)...))
+			}
+		}
+	}
+	c11AuxFam = out
+	return out
+}
+
+// c11AuxBAM is an uncompressed BAM stream: empty header, one unmapped record
+// whose aux bytes are aux.
+func c11AuxBAM(aux []byte) []byte {
+	raw := oracle.EncodeBAMHeader(nil, nil)
+	name := "r\x00"
+	le32 := func(v int32) []byte { return []byte{byte(v), byte(v >> 8), byte(v >> 16), byte(v >> 24)} }
+	var rec []byte
+	rec = append(rec, le32(-1)...)                    // refID
+	rec = append(rec, le32(-1)...)                    // pos
+	rec = append(rec, byte(len(name)), 0, 0x48, 0x12) // l_read_name, mapq, bin 4680
+	rec = append(rec, 0, 0, 4, 0)                     // n_cigar_op, flag (unmapped)
+	rec = append(rec, le32(0)...)                     // l_seq
+	rec = append(rec, le32(-1)...)                    // next refID
+	rec = append(rec, le32(-1)...)                    // next pos
+	rec = append(rec, le32(0)...)                     // tlen
+	rec = append(rec, name...)
+	rec = append(rec, aux...)
+	raw = append(raw, le32(int32(len(rec)))...)
+	return append(raw, rec...)
 }
 
 // stepReader counts underlying reads and refuses to go on beyond a bound.
@@ -83,6 +198,30 @@ func (s *stepReader) Read(p []byte) (int, error) {
 		return 0, io.ErrNoProgress
 	}
 	return s.r.Read(p)
+}
+
+// stepSeeker is a stepReader over a seekable source.
+type stepSeeker struct {
+	*stepReader
+	rs io.ReadSeeker
+}
+
+func (s stepSeeker) Seek(off int64, whence int) (int64, error) { return s.rs.Seek(off, whence) }
+
+func newStepSeeker(b []byte) stepSeeker {
+	br := bytes.NewReader(b)
+	return stepSeeker{&stepReader{r: br, bound: 64*len(b) + 4096}, br}
+}
+
+// memberStarts returns the offsets in b that look like the start of a BGZF member.
+func memberStarts(b []byte) []int64 {
+	var out []int64
+	for i := 0; i+4 <= len(b) && len(out) < 12; i++ {
+		if b[i] == 0x1f && b[i+1] == 0x8b && b[i+2] == 8 {
+			out = append(out, int64(i))
+		}
+	}
+	return out
 }
 
 func newStep(b []byte) *stepReader {
@@ -403,6 +542,32 @@ func consumeIndex(x anyIndex) {
 func c11Decode(e string, in []byte, variant int) (reads int, over bool) {
 	switch e {
 	case "bgzf":
+		if variant >= 3 {
+			// seekable source: Seek to everything that looks like a member
+			// start, forwards and backwards, letting read-ahead run first,
+			// and read a little at each place
+			st := newStepSeeker(in)
+			r, err := bgzf.NewReader(st, 1+variant%3)
+			if err == nil {
+				buf := make([]byte, 300)
+				starts := memberStarts(in)
+				for k := 0; k < 2*len(starts); k++ {
+					o := starts[k%len(starts)]
+					if k >= len(starts) {
+						o = starts[2*len(starts)-1-k]
+					}
+					for y := 0; y < 3; y++ {
+						runtime.Gosched()
+					}
+					if r.Seek(bgzf.Offset{File: o, Block: uint16(k % 3)}) == nil {
+						r.Read(buf)
+						r.LastChunk()
+					}
+				}
+				r.Close()
+			}
+			return st.n, st.over
+		}
 		st := newStep(in)
 		r, err := bgzf.NewReader(st, 1+variant%2)
 		if err == nil {
@@ -415,7 +580,7 @@ func c11Decode(e string, in []byte, variant int) (reads int, over bool) {
 			r.Close()
 		}
 		return st.n, st.over
-	case "bam":
+	case "bam", "bam-aux":
 		st := newStep(in)
 		br, err := bam.NewReader(st, 1+variant/3)
 		if err == nil {
@@ -458,10 +623,13 @@ func c11Decode(e string, in []byte, variant int) (reads int, over bool) {
 				consumeRecord(&rec, h)
 			}
 		}
-	case "parse-aux":
+	case "parse-aux", "aux-text":
 		if a, err := sam.ParseAux(in); err == nil {
 			_, _, _, _ = a.Tag(), a.Type(), a.Kind(), a.Value()
 			_ = a.String()
+			// and inside a record, through the formatters and the BAM writer
+			rec := sam.Record{Name: "r", Pos: -1, MatePos: -1, Flags: sam.Unmapped, AuxFields: sam.AuxFields{a}}
+			consumeRecord(&rec, c11EmptyHdr)
 		}
 	case "parse-cigar":
 		if c, err := sam.ParseCigar(in); err == nil {
@@ -591,6 +759,21 @@ func c11Run(c core.Case) *core.Result {
 			p, _ := c11BamPayload(rng)
 			valid = append(valid, p)
 		}
+	case "aux-text":
+		text = true
+		fam := c11AuxTextFamily()
+		lo := c.Int("part") * c11AuxPart
+		for i := lo; i < lo+c11AuxPart && i < len(fam); i++ {
+			valid = append(valid, fam[i])
+		}
+		n = len(valid)
+	case "bam-aux":
+		fam := c11AuxFamily()
+		lo := c.Int("part") * c11AuxPart
+		for i := lo; i < lo+c11AuxPart && i < len(fam); i++ {
+			valid = append(valid, c11AuxBAM(fam[i]))
+		}
+		n = len(valid)
 	case "sam-reader":
 		text = true
 		for i := 0; i < 4; i++ {
@@ -680,6 +863,17 @@ func c11Run(c core.Case) *core.Result {
 			in = gen.MutateBinary(rng, base, other)
 		}
 		data := in
+		if e == "aux-text" && !seen[string(in)] {
+			seen[string(in)] = true
+			nt++
+		}
+		if e == "bam-aux" {
+			data = gen.FileFromData(rng, in, nil, 0, true).Bytes
+			if !seen[string(in)] {
+				seen[string(in)] = true
+				nt++
+			}
+		}
 		if e == "bam" {
 			if mutated && rng.Intn(5) == 0 {
 				data = gen.MutateBinary(rng, wrapBGZF(rng, base), nil) // framing-level mutation
@@ -692,6 +886,9 @@ func c11Run(c core.Case) *core.Result {
 			nt++
 		}
 		variant := rng.Intn(6)
+		if e == "bam-aux" {
+			variant = 3 * (variant % 2) // aux fields are only parsed without Omit
+		}
 		if from, ok := c.P["from"]; ok && int64(i) < from {
 			continue
 		}
